@@ -967,6 +967,52 @@ func runNip11Tab(c *core.Ctx) {
 		c.CountSites(1)
 		c.Check(ok, nil, fname(c, build), "row["+row.field+"]", P.Pos(pos), "Limitation."+row.field+" != 0 ⇒ wrapped by "+row.ctor+"(Limitation."+row.field+")", why)
 	}
+	// order: the subscription quota keeps per-session state, so it must be the innermost
+	// wrapper — it may only count REQs that every stateless limit has already passed.
+	// Wrapped around them it counts a REQ that max_filters / max_limit then reject, and a
+	// later, perfectly fine REQ is refused "too many" although no subscription is open.
+	for _, fn := range fns {
+		for _, call := range callsNamed(fn, core.ModulePath+".NewMaxSubscriptionsMiddleware") {
+			var app *ssa.Call
+			var refs []ssa.Instruction
+			if call.Referrers() != nil {
+				refs = append(refs, *call.Referrers()...)
+			}
+			for _, ref := range refs {
+				if ct, isCT := ref.(*ssa.ChangeType); isCT && ct.Referrers() != nil {
+					refs = append(refs, *ct.Referrers()...)
+				}
+				if dc, isCall := ref.(*ssa.Call); isCall && (dc.Call.Value == ssa.Value(call) || an.Unwrap(dc.Call.Value) == ssa.Value(call)) && len(dc.Call.Args) == 1 {
+					app = dc
+				}
+			}
+			if app == nil {
+				continue
+			}
+			var inner []string
+			seen := map[ssa.Value]bool{}
+			var walk func(v ssa.Value)
+			walk = func(v ssa.Value) {
+				v = an.LoadedValue(an.Unwrap(v))
+				if seen[v] {
+					return
+				}
+				seen[v] = true
+				switch x := v.(type) {
+				case *ssa.Phi:
+					for _, e := range x.Edges {
+						walk(e)
+					}
+				case *ssa.Call:
+					inner = append(inner, an.PathOf(x.Call.Value)+" at "+P.Pos(x.Pos()))
+				}
+			}
+			walk(app.Call.Args[0])
+			c.Check(len(inner) == 0, nil, fname(c, build), "order[MaxSubscriptions innermost]", P.Pos(app.Pos()),
+				"the subscription quota wraps the bare handler: it counts only REQs that all other limits let through",
+				"the subscription quota is wrapped around other limit middlewares ("+clip(strings.Join(inner, "; "), 160)+"): a REQ they reject still occupies a subscription slot, so the chain refuses REQs the individual middlewares would accept")
+		}
+	}
 }
 
 func runNip11Nil(c *core.Ctx) {
